@@ -286,6 +286,17 @@ func convSetup() {
 		}
 		return []any{len(a)}
 	})
+	// a function that works in place and returns the very slice it was given (sorting, filling, mapping): the result is
+	// that slice's content when the function returns
+	textwire.RegisterArrFunc("inplace", func(a []any, args ...any) []any {
+		if len(a) > 0 {
+			a[0] = "Z"
+		}
+		for i, j := 1, len(a)-1; i < j; i, j = i+1, j-1 {
+			a[i], a[j] = a[j], a[i]
+		}
+		return a
+	})
 }
 
 func mixedResult() []any {
@@ -334,6 +345,22 @@ func convFamily(raw json.RawMessage) Result {
 			res.Status, res.Kind = "viol", "argument-conversion"
 			res.Msg = fmt.Sprintf("after a custom function wrote into the slices it had received: output %q (err %v), the next function received %s %v", out, err, convLog.recv, convLog.args)
 			return res
+		}
+		xs := []any{3, 1, 2, 5}
+		for _, c := range []struct {
+			src, want string
+			data      map[string]any
+		}{
+			{"{{ r = [3, 1, 2, 5] }}{{ r.inplace() }}|{{ r }}|{{ r.inplace().len() }}", "Z, 5, 2, 1|3, 1, 2, 5|4", nil},
+			{"{{ xs.inplace() }}|{{ xs }}|{{ [].inplace() }}|{{ [7].inplace() }}", "Z, 5, 2, 1|3, 1, 2, 5||Z", map[string]any{"xs": xs}},
+			{"{{ [4, 6, 8].inplace()[1] }}", "8", nil},
+		} {
+			out, err := textwire.EvaluateString(c.src, c.data)
+			if err != nil || out != c.want || !reflect.DeepEqual(xs, []any{3, 1, 2, 5}) {
+				res.Status, res.Kind = "viol", "result-conversion"
+				res.Msg = fmt.Sprintf("a custom function that works in place and returns the slice it was given: %q renders %q (err %v), want %q; caller's slice %v", c.src, out, err, c.want, xs)
+				return res
+			}
 		}
 		// a result that could not be passed as data either must be an error, as it is for data
 		if out, err := textwire.EvaluateString("{{ a.unsupported() }}", map[string]any{"a": []any{}}); err == nil {
